@@ -88,6 +88,7 @@ pub struct Hist {
     /// skip the state-level query sweeps in `step` (the caller runs `state_checks` itself)
     pub light: bool,
     pub resyncs: u32,
+    pub proto_n: u64,
     /// Miri mode: only drive the calls (incl. hold-all-then-write patterns) and keep the model in
     /// step; the functional oracles run natively
     pub fast: bool,
@@ -117,7 +118,7 @@ impl Hist {
     pub fn new(mut w: Box<dyn WorldApi>, prop: &str, is_set: bool, g: Gen, replay: serde_json::Value) -> Hist {
         w.reset(2, 2);
         let (slot, scratch) = if is_set { (Slot::Set(0), Slot::Set(1)) } else { (Slot::Map(0), Slot::Map(1)) };
-        Hist { w, slot, scratch, m: Model::new(), g, f: Flags::for_prop(prop), prop: prop.to_string(), canonical: true, recent: VecDeque::new(), step_no: 0, replay, sweep_every: 1, hw_reach: 1, is_set, light: false, resyncs: 0, fast: false }
+        Hist { w, slot, scratch, m: Model::new(), g, f: Flags::for_prop(prop), prop: prop.to_string(), canonical: true, recent: VecDeque::new(), step_no: 0, replay, sweep_every: 1, hw_reach: 1, is_set, light: false, resyncs: 0, proto_n: 0, fast: false }
     }
 
     fn replay_info(&self) -> serde_json::Value {
@@ -387,8 +388,13 @@ impl Hist {
         run!(self.f.cover, "cover-sweep", self.check_cover(&qs));
         run!(self.f.child, "children-sweep", self.check_children(&qs));
         run!(self.f.iter, "traversals", self.check_iter());
+        run!(self.f.muta, "mut-protocol", self.check_mut_protocol(&qs));
         run!(self.f.len, "len", self.check_len());
         run!(self.f.view || self.f.find, "views", self.check_views(ev, &qs, post_shape));
+        if self.proto_n > 0 {
+            ev.count("iterator_protocol_checks", self.proto_n);
+            self.proto_n = 0;
+        }
         Flow::Continue
     }
 
@@ -1025,6 +1031,17 @@ impl Hist {
                     bad.push(("cover/not-increasing".into(), format!("{:?}({:?}) lengths not strictly increasing: {:?}", which, q, o.items)));
                     return bad;
                 }
+                if self.g.rng.chance(1, 12) {
+                    let (k, fin) = pick_fin(&mut self.g.rng, o.items.len());
+                    crate::world::set_proto(k, fin);
+                    let p = self.w.ql(slot, which, *q);
+                    crate::world::clear_proto();
+                    self.proto_n += 1;
+                    if let Some(msg) = proto_eval(&p, &o.items) {
+                        bad.push((format!("cover/{:?}/protocol/{}", which, fin_name(fin)), format!("{:?}({:?}): {}", which, q, msg)));
+                        return bad;
+                    }
+                }
             }
             let first = exp.first().copied();
             let obs: Vec<(Q1, bool)> = if self.is_set { vec![(Q1::GetSpm, false)] } else { vec![(Q1::GetSpm, true), (Q1::GetSpmPrefix, false)] };
@@ -1074,6 +1091,17 @@ impl Hist {
                     let from = o.clone_at.min(o.items.len());
                     if rest[..] != o.items[from..] {
                         bad.push((format!("children/{:?}/clone", which), format!("cloned {:?}({:?}) continues with {:?}, original with {:?}", which, q, rest, &o.items[from..])));
+                        return bad;
+                    }
+                }
+                if self.g.rng.chance(1, 12) {
+                    let (k, fin) = pick_fin(&mut self.g.rng, o.items.len());
+                    crate::world::set_proto(k, fin);
+                    let p = self.w.ql(slot, which, *q);
+                    crate::world::clear_proto();
+                    self.proto_n += 1;
+                    if let Some(msg) = proto_eval(&p, &o.items) {
+                        bad.push((format!("children/{:?}/protocol/{}", which, fin_name(fin)), format!("{:?}({:?}): {}", which, q, msg)));
                         return bad;
                     }
                 }
@@ -1132,6 +1160,51 @@ impl Hist {
                     bad.push((format!("iter/{:?}/clone", which), format!("clone of {:?} taken after {} items yields {:?}", which, from, rest)));
                     return bad;
                 }
+            }
+            // the other ways of consuming the iterator agree with plain next() calls
+            let (k, fin) = pick_fin(&mut self.g.rng, n);
+            crate::world::set_proto(k, fin);
+            let p = self.w.trav(slot, which, None);
+            crate::world::clear_proto();
+            self.proto_n += 1;
+            if let Some(msg) = proto_eval(&p, &o.items) {
+                bad.push((format!("iter/{:?}/protocol/{}", which, fin_name(fin)), format!("{:?}: {}", which, msg)));
+                return bad;
+            }
+        }
+        bad
+    }
+
+    /// C13: every way of consuming a mutable traversal mirrors the plain read-only twin
+    fn check_mut_protocol(&mut self, qs: &[EP]) -> Vec<(String, String)> {
+        let mut bad = Vec::new();
+        if self.is_set {
+            return bad;
+        }
+        let slot = self.slot;
+        for (mt, ro) in [(Trav::IterMut, Trav::Iter), (Trav::ValuesMut, Trav::Values)] {
+            let full = self.w.trav(slot, ro, None).items;
+            let (k, fin) = pick_fin(&mut self.g.rng, full.len());
+            crate::world::set_proto(k, fin);
+            let p = self.w.trav(slot, mt, None);
+            crate::world::clear_proto();
+            self.proto_n += 1;
+            if let Some(msg) = proto_eval(&p, &full) {
+                bad.push((format!("mut/mirror/{:?}/protocol/{}", mt, fin_name(fin)), format!("{:?} against {:?}: {}", mt, ro, msg)));
+                return bad;
+            }
+        }
+        for _ in 0..6.min(qs.len()) {
+            let q = qs[self.g.rng.below(qs.len())];
+            let full = self.w.ql(slot, QL::Children, q).items;
+            let (k, fin) = pick_fin(&mut self.g.rng, full.len());
+            crate::world::set_proto(k, fin);
+            let p = self.w.ql(slot, QL::ChildrenMut, q);
+            crate::world::clear_proto();
+            self.proto_n += 1;
+            if let Some(msg) = proto_eval(&p, &full) {
+                bad.push((format!("mut/mirror/ChildrenMut/protocol/{}", fin_name(fin)), format!("children_mut({:?}) against children: {}", q, msg)));
+                return bad;
             }
         }
         bad
@@ -1655,4 +1728,77 @@ pub fn canon_op(op: &Op) -> Op {
         Op::ViewMut(prog, act) => Op::ViewMut(ViewProg { root: prog.root.map(|q| q.canon()), nav: prog.nav.iter().map(cn).collect() }, act.clone()),
         x => x.clone(),
     }
+}
+
+
+// ---------------------------------------------------------------------------------------------
+// iterator protocol: k items by next(), then a finisher; judged against the plain next() sequence
+// ---------------------------------------------------------------------------------------------
+
+pub fn pick_fin(rng: &mut Rng, n: usize) -> (usize, Fin) {
+    let k = rng.below(n + 2);
+    let fin = match rng.below(7) {
+        0 | 1 => Fin::Fold,
+        2 => Fin::ForEach,
+        3 => Fin::Collect,
+        4 => Fin::Last,
+        5 => Fin::Count,
+        _ => Fin::Nth(rng.below(4)),
+    };
+    (k, fin)
+}
+
+pub fn fin_name(f: Fin) -> &'static str {
+    match f {
+        Fin::Fold => "fold",
+        Fin::ForEach => "for_each",
+        Fin::Collect => "collect",
+        Fin::Last => "last",
+        Fin::Count => "count",
+        Fin::Nth(_) => "nth",
+    }
+}
+
+/// `full`: what the same iterator yields through plain `next()` calls
+pub fn proto_eval(p: &ListObs, full: &[Item]) -> Option<String> {
+    let po = match &p.proto {
+        Some(po) => po,
+        None => return Some("HARNESS: traversal did not run in protocol mode".into()),
+    };
+    let n = full.len();
+    let head = po.k.min(n);
+    if po.head != head || p.items.len() < head || p.items[..head] != full[..head] {
+        return Some(format!("first {} next() calls gave {:?}, a plain traversal gives {:?}", po.k, &p.items[..po.head.min(p.items.len())], full));
+    }
+    for (y, lo, hi) in &po.hints {
+        let rem = n.saturating_sub(*y);
+        if *lo > rem || hi.map_or(false, |h| h < rem) {
+            return Some(format!("size_hint() = ({}, {:?}) after {} items, but {} more items follow", lo, hi, y, rem));
+        }
+    }
+    let rem = &full[head..];
+    match po.fin {
+        Fin::Fold | Fin::ForEach | Fin::Collect => {
+            if p.items[..] != full[..] {
+                return Some(format!("{} next() calls then {:?} visit {:?}, plain next() calls visit {:?}", po.k, po.fin, p.items, full));
+            }
+        }
+        Fin::Last => {
+            if po.last != Some(rem.last().copied()) {
+                return Some(format!("{} next() calls then last() = {:?}, plain traversal ends with {:?} (all: {:?})", po.k, po.last, rem.last(), full));
+            }
+        }
+        Fin::Count => {
+            if po.count != Some(rem.len()) {
+                return Some(format!("{} next() calls then count() = {:?}, {} items remain", po.k, po.count, rem.len()));
+            }
+        }
+        Fin::Nth(j) => {
+            let exp_rest: &[Item] = if j < rem.len() { &rem[j + 1..] } else { &[] };
+            if po.nth != Some(rem.get(j).copied()) || p.items[head..] != exp_rest[..] || !p.fused {
+                return Some(format!("{} next() calls then nth({}) = {:?} followed by {:?} (fused={}); plain traversal: {:?}", po.k, j, po.nth, &p.items[head..], p.fused, full));
+            }
+        }
+    }
+    None
 }
